@@ -133,6 +133,22 @@ def check_isinstance(
         raise TypeError(f"Variable {name_str} is not of the type "
                         + f"{types_str}. {msg_str}")
 
+def get_number_of_steps(
+        start_time: float,
+        end_time: float,
+        dt: float) -> int:
+    """
+    Number of whole time steps of length `dt` that fit between `start_time`
+    and `end_time`. An `end_time` that coincides with a point of the time grid
+    up to floating point rounding (e.g. 0.3 with a time step of 0.1) counts
+    as reached.
+    """
+    quotient = (end_time - start_time) / dt
+    nearest = np.round(quotient)
+    if np.abs(quotient - nearest) < 1.0e-8:
+        return int(nearest)
+    return int(np.floor(quotient))
+
 # -- process bar --------------------------------------------------------------
 
 class BaseProgress:
